@@ -87,6 +87,18 @@ pub fn ext_name(ext_idx: usize) -> String {
 }
 
 pub fn render_report(report: &SourceReport, input: &str) -> Result<(), String> {
+    // every diagnostic is rendered with the source lines it points at: thousands of diagnostics on one very
+    // long line make gigabytes of text. Then the first and last 40 are rendered one by one.
+    let n = report.iter().count();
+    if n.saturating_mul(input.len()) > (32 << 20) {
+        let diags: Vec<&cooklang::error::SourceDiag> = report.iter().collect();
+        let picked: Vec<&&cooklang::error::SourceDiag> = diags.iter().take(40).chain(diags.iter().skip(n.saturating_sub(40).max(40))).collect();
+        for d in picked {
+            let mut buf = Vec::new();
+            cooklang::error::write_rich_error(*d as &dyn cooklang::error::RichError, "verif.cook", input, false, &mut buf).map_err(|e| format!("write_rich_error returned Err: {e}"))?;
+        }
+        return Ok(());
+    }
     for color in [false, true] {
         let mut buf = Vec::new();
         report
@@ -101,13 +113,22 @@ pub const AISLE_SAMPLE: &str = "[produce]\nsalt|a\nflour\n[dairy]\nmilk|kg\nwate
 
 pub const SYSTEMS: [System; 2] = [System::Metric, System::Imperial];
 
-/// A pure metadata validator used wherever parse options are exercised: it is a function of the
-/// key text only. Keys of even length are excluded, keys whose length is a multiple of 3 skip the
+/// Pure parse options used wherever options are exercised: a recipe-reference checker and a metadata
+/// validator that are functions of the name / key text only. Keys of even length are excluded, keys whose length is a multiple of 3 skip the
 /// standard checks, keys containing an `a` get a warning.
 pub fn test_options<'a>() -> cooklang::ParseOptions<'a> {
     use cooklang::analysis::CheckResult;
     cooklang::ParseOptions {
-        recipe_ref_check: None,
+        // recipe references: names of even length are "not found", names with an `e` get a warning
+        recipe_ref_check: Some(Box::new(|name: &str| {
+            if name.chars().count() % 2 == 0 {
+                CheckResult::Error(vec!["no such recipe".into()])
+            } else if name.contains('e') {
+                CheckResult::Warning(vec!["recipe found in another directory".into()])
+            } else {
+                CheckResult::Ok
+            }
+        })),
         metadata_validator: Some(Box::new(|k: &serde_yaml::Value, _v: &serde_yaml::Value, o: &mut cooklang::analysis::CheckOptions| {
             let key = match k.as_str() {
                 Some(s) => s.to_string(),
